@@ -143,6 +143,10 @@ def step (st : St) (cmd : String) (args : List String) : St × String :=
     match schemaOfName sch with
     | some s => ({ schema := some s, lib := Lib2.empty s modelUuid }, "ok")
     | none => (st, "bad-op schema")
+  | "v2.create", [sch, _] =>      -- harness: the same through engine_library (table-level objects reachable: `addforeign`)
+    match schemaOfName sch with
+    | some s => ({ schema := some s, lib := Lib2.empty s modelUuid }, "ok")
+    | none => (st, "bad-op schema")
   -- tracks
   | "mktrack", v :: toks =>
     match runP pSnap toks with
@@ -233,6 +237,14 @@ def step (st : St) (cmd : String) (args : List String) : St × String :=
     match cr c, t.toInt? with
     | some c, some t => run st (.crateAddTrack c t)
     | _, _ => (st, "bad-op args")
+  | "addforeign", [c, t, u] =>
+    -- other software adds an entry of another database (uuid tag u ≠ 0) for the numeric id of track t
+    match cr c, tr t, u.toInt? with
+    | some c, some t, some u =>
+      if !(EngineModel.Db.V2.qValid st.lib.crates c) then (st, "ok skipped") else
+      let (st', r) := call st (.foreignEntry c t u)
+      (st', r.render fun _ => "")
+    | _, _, _ => (st, "bad-op args")
   | "rmtrackfrom", [c, t] =>
     match cr c, tr t with
     | some c, some t => run st (.crateRemoveTrack c t)
